@@ -629,6 +629,10 @@ async def copy_run(rng, tier, root, only=None):
                 params.append((False, sz, roff, length, rng.choice([0, 0, 3, BLOCK]), 12))
     rng.shuffle(params)
     params = params[:(len(params) if tier == 'thorough' else 36)]
+    # copies that need several read calls, whatever the shuffle kept (the multi_block coverage guard must not
+    # depend on the seed)
+    params += [(False, 2 * BLOCK + 5, 0, 0, 0, 12), (False, 2 * BLOCK + 5, 1, 2 ** 64 - 1, 3, 12),
+               (False, 2 * BLOCK + 5, 0, 2 * BLOCK + 5, BLOCK, 12), (False, BLOCK + 1, 0, 0, 0, 12)]
     # the same file as source and destination (a cap on read calls stands in for the disk filling up)
     for sz, woff, length in ((BLOCK, BLOCK, 0), (BLOCK + 9, 2 * BLOCK, 0), (BLOCK, BLOCK - 1, 0), (3 * BLOCK, 5, 0),
                              (BLOCK, BLOCK, 2 ** 64 - 1), (10, 20, 0), (BLOCK, 0, 0)):
